@@ -431,3 +431,12 @@ def mutate_gate(rng, cd):
     else:
         x[1] = rng.choice([t for t in GATESN if t != x[1]])
     return {"name": cd["name"], "nodes": nodes, "edges": [list(e) for e in cd["edges"]], "bbs": dict(cd["bbs"])}, x[0]
+
+
+def shuffle_nodes(rng, cd):
+    """Same circuit, node insertion order shuffled (drivers may come after their loads)."""
+    nodes = [list(x) for x in cd["nodes"]]
+    rng.shuffle(nodes)
+    edges = [list(e) for e in cd["edges"]]
+    rng.shuffle(edges)
+    return {"name": cd["name"], "nodes": nodes, "edges": edges, "bbs": dict(cd["bbs"])}
